@@ -52,6 +52,15 @@ pub const PROGRAMS: &[&str] = &[
     "from t | select {x = s\"RANDOM()\"}",
     "from t | join side:full u (==a)",
     "from t | sort {-a} | select {b} | take 1",
+    // relations given as SQL text, in each quoting style a dialect might read differently
+    "from s\"SELECT b, a FROM t\" | select {a, b}",
+    "from s\"SELECT [b], [a] FROM t\"",
+    "from s\"SELECT [b], [a] FROM t\" | select {a}",
+    "from s\"SELECT \\\"b\\\", \\\"a\\\" FROM t\"",
+    "from s\"SELECT `b`, `a` FROM t\"",
+    "from s\"SELECT 'b' AS b, a FROM t\" | sort a | take 2",
+    "from t | join (s\"SELECT [a], [d] FROM u\") (==a)",
+    "let x = s\"SELECT \\\"a\\\" FROM t\"\nfrom x | select {a}",
 ];
 
 #[derive(Clone, Debug)]
